@@ -16,17 +16,19 @@ fn sec(id: u8, body: Vec<u8>, out: &mut Vec<u8>) {
     out.extend(body);
 }
 
-/// Scaffold: types t0 = (params)->(), t1 = ()->(), t2 = (i32)->(i32); funcs f0:t1, f1:t2,
+/// Scaffold: types t0 = (params)->(), t1 = ()->(), t2 = (i32)->(i32), t3 = (i32)->(), t4 = (i32,i64)->(f32); funcs f0:t1, f1:t2,
 /// f2: the subject (type t0); tables: 0 funcref, 1 externref, 2 funcref 64-bit, 3 funcref (5..9);
 /// memories: 0 32-bit, 1 64-bit, 2 32-bit (2..3); globals 0..6 mutable of every value type;
 /// elems: 0 passive funcref [f0], 1 passive externref [null]; data: 0 passive.
 pub fn module(params: &[u8], body: &[u8]) -> Vec<u8> {
     let mut m = b"\0asm\x01\0\0\0".to_vec();
-    let mut t = vec![3u8, 0x60];
+    let mut t = vec![5u8, 0x60];
     uleb(params.len() as u64, &mut t);
     t.extend(params);
     t.push(0);
     t.extend([0x60, 0, 0, 0x60, 1, 0x7f, 1, 0x7f]);
+    // t3 = (i32)->(), t4 = (i32,i64)->(f32): block types with parameters (and without results)
+    t.extend([0x60, 1, 0x7f, 0, 0x60, 2, 0x7f, 0x7e, 1, 0x7d]);
     sec(1, t, &mut m);
     sec(3, vec![3, 1, 2, 0], &mut m);
     // tables 0 and 3 (and memories 0 and 2) have the same index type but different limits, so that
@@ -191,7 +193,7 @@ pub fn instances(boundary: bool) -> Vec<(&'static str, Vec<u8>)> {
     t.push(("v128", vec![0xff; 16]));
     t.push(("v128", (0..16u8).map(|x| x.wrapping_mul(17).wrapping_add(1)).collect()));
     // block types + end / else end
-    for bt in [vec![0x40u8], vec![0x7f], vec![0x6f], vec![0x01], vec![0x02]] {
+    for bt in [vec![0x40u8], vec![0x7f], vec![0x6f], vec![0x01], vec![0x02], vec![0x03], vec![0x04]] {
         let mut a = bt.clone();
         a.push(0x0b);
         t.push(("block", a));
@@ -199,6 +201,11 @@ pub fn instances(boundary: bool) -> Vec<(&'static str, Vec<u8>)> {
         b.extend([0x05, 0x0b]);
         t.push(("block-else", b));
     }
+    // block types *with parameters*: t3 = (i32)->(), t4 = (i32,i64)->(f32); the body consumes them
+    t.push(("block-body", vec![0x03, 0x1a, 0x0b]));
+    t.push(("block-body", vec![0x03, 0x1a, 0x05, 0x1a, 0x0b]));
+    t.push(("block-body", vec![0x04, 0x1a, 0x1a, 0x43, 0, 0, 0, 0, 0x0b]));
+    t.push(("block-body", vec![0x04, 0x1a, 0x1a, 0x43, 0, 0, 0, 0, 0x05, 0x1a, 0x1a, 0x43, 0, 0, 0, 0, 0x0b]));
     // br_table
     t.push(("brtable", vec![1, 0, 0]));
     t.push(("brtable", vec![0, 0]));
@@ -225,7 +232,7 @@ fn decode214(bytes: &[u8]) -> Option<Vec<String>> {
             }
             Err(_) => return None,
         }
-        if names.len() > 3 {
+        if names.len() > 9 {
             return None;
         }
     }
@@ -291,6 +298,8 @@ pub fn candidates(boundary: bool) -> (Vec<(String, &'static str, Vec<u8>)>, usiz
                 // exactly one operator, or a block opener followed only by else/end
                 let ok = if block {
                     matches!(names[0].as_str(), "Block" | "Loop" | "If") && names[1..].iter().all(|n| n == "Else" || n == "End") && names.len() >= 2
+                } else if *class == "block-body" {
+                    matches!(names[0].as_str(), "Block" | "Loop" | "If") && names[1..].iter().all(|n| matches!(n.as_str(), "Else" | "End" | "Drop" | "F32Const"))
                 } else {
                     names.len() == 1
                 };
@@ -361,7 +370,9 @@ pub fn census(boundary: bool, per_name: Option<usize>, threads: usize) -> (Vec<E
                 let mut per_class: BTreeMap<&'static str, usize> = BTreeMap::new();
                 for (class, enc) in encs {
                     if let Some(k) = per_name {
-                        if entries.len() >= k && *per_class.get(class).unwrap_or(&0) >= 1 {
+                        // block signatures are few and each is its own case: never capped
+                        let is_block = *class == "block" || *class == "block-else" || *class == "block-body";
+                        if !is_block && entries.len() >= k && *per_class.get(class).unwrap_or(&0) >= 1 {
                             continue;
                         }
                     }
